@@ -3,7 +3,7 @@ package main
 func init() {
 	checks["c20"] = checkDef{"C20",
 		"e2e: one request per case against a child gateway process: every route × sub-resource of s3api/router.go and the admin router as a valid template over a fixture world, with 0-3 fields (query values, headers, path, method, XML/JSON body, chunk framing, declared lengths, credentials/auth mode) replaced from typed pools of boundary/malformed/oversized/empty/negative/non-UTF-8/type-confused values; systematic part: every structural variant (element dropped/emptied/duplicated/leaf value) of every XML body. Non-trivial = at least one mutation; distinct by (endpoint, mutations, credentials, auth mode).",
-		[]checkFn{c20Sites, c20Direct, c20Tie, c20E2E}}
+		[]checkFn{c20Sites, c20Direct, c20Tie, c20States, c20E2E}}
 }
 
 // sub-checks on their own (debugging aid; `./check` runs "c20")
@@ -13,6 +13,7 @@ func init() {
 }
 
 func init() {
+	checks["c20states"] = checkDef{"C20", "state matrix only", []checkFn{c20States}}
 	checks["c20tie"] = checkDef{"C20", "targeted e2e differential only", []checkFn{c20Tie}}
 	checks["c20sites"] = checkDef{"C20", "site inventory only", []checkFn{c20Sites}}
 }
